@@ -312,7 +312,7 @@ fn ref_time_field(r: &mut Cur, kind: u8, h: u32, mi: u32, s: u32, us: u32) {
     }
 }
 
-//@ unit c04_time_field prop=C04,C03 chunks=range:0:17 quick=all unwind=12 mem=5 timeout=1500 stubs=crate::util::try_format=>crate::verif_support::stub_try_format,crate::time::Time::extract=>crate::format::verif_h_fmt_fields::stub_time_extract bound="Time: every time of day (h, m, s, us as fields - all 86.4e9 microseconds), picture = the single time token given by the parameter (HH24, HH12, MI, SS, AM/am/A.M./a.m., FF, FF1..FF6; FF7..FF9 - a float division by 0.1/0.01/0.001 - in the thorough tier only): output bytes equal the reference rendering (fractions truncated)"
+//@ unit c04_time_field prop=C04,C03 chunks=range:0:14/range:0:17 quick=all unwind=12 mem=5 timeout=1500/10800 stubs=crate::util::try_format=>crate::verif_support::stub_try_format,crate::time::Time::extract=>crate::format::verif_h_fmt_fields::stub_time_extract bound="Time: every time of day (h, m, s, us as fields - all 86.4e9 microseconds), picture = the single time token given by the parameter (HH24, HH12, MI, SS, AM/am/A.M./a.m., FF, FF1..FF6; FF7..FF9 - a float division by 0.1/0.01/0.001 - in the thorough tier only): output bytes equal the reference rendering (fractions truncated)"
 fn c04_time_field(kind: u8) {
     let (t, (h, mi, s, us)) = ghost_time();
     let fmt = one_field(time_field(kind));
@@ -387,7 +387,7 @@ fn c04_interval_ym() {
     std::mem::forget(fmt);
 }
 
-//@ unit c04_interval_dt prop=C04,C03 chunks=range:0:5 quickn=3 unwind=14 mem=6 timeout=1800 stubs=crate::util::try_format=>crate::verif_support::stub_try_format,crate::interval::IntervalDT::extract=>crate::format::verif_h_fmt_fields::stub_dt_extract bound="IntervalDT: every value (sign and fields), picture = DD then the token given by the parameter (0 none, 1 HH24, 2 MI, 3 SS, 4 FF, 5 FF3): one leading sign, days at least 2 digits, fields as for times"
+//@ unit c04_interval_dt q23=1 prop=C04,C03 chunks=range:0:5 quickn=2 unwind=14 mem=6 timeout=1800 stubs=crate::util::try_format=>crate::verif_support::stub_try_format,crate::interval::IntervalDT::extract=>crate::format::verif_h_fmt_fields::stub_dt_extract bound="IntervalDT: every value (sign and fields), picture = DD then the token given by the parameter (0 none, 1 HH24, 2 MI, 3 SS, 4 FF, 5 FF3): one leading sign, days at least 2 digits, fields as for times"
 fn c04_interval_dt(kind: u8) {
     let (v, (neg, d, h, mi, s, us)) = ghost_dt();
     let second = match kind {
@@ -424,7 +424,7 @@ fn is_format_err<T>(r: &Result<T>) -> bool {
     matches!(r, Err(Error::FormatError(_)))
 }
 
-//@ unit c04_inapplicable prop=C04,C03 unwind=12 mem=6 timeout=1800 stubs=crate::util::try_format=>crate::verif_support::stub_try_format,crate::common::julian2date=>crate::verif_support::ghost_julian2date,crate::time::Time::extract=>crate::format::verif_h_fmt_fields::stub_time_extract,crate::timestamp::Timestamp::extract=>crate::verif_support::stub_ts_extract,crate::timestamp::Timestamp::date=>crate::verif_support::stub_ts_date,crate::timestamp::Timestamp::time=>crate::verif_support::stub_ts_time,crate::interval::IntervalDT::extract=>crate::format::verif_h_fmt_fields::stub_dt_extract bound="every type x every field kind (symbolic): a token that does not apply to the value's type yields Err(FormatError) and no panic; an applicable one yields Ok"
+//@ unit c04_inapplicable q23=1 prop=C04,C03 unwind=12 mem=6 timeout=1800 stubs=crate::util::try_format=>crate::verif_support::stub_try_format,crate::common::julian2date=>crate::verif_support::ghost_julian2date,crate::time::Time::extract=>crate::format::verif_h_fmt_fields::stub_time_extract,crate::timestamp::Timestamp::extract=>crate::verif_support::stub_ts_extract,crate::timestamp::Timestamp::date=>crate::verif_support::stub_ts_date,crate::timestamp::Timestamp::time=>crate::verif_support::stub_ts_time,crate::interval::IntervalDT::extract=>crate::format::verif_h_fmt_fields::stub_dt_extract bound="every type x every field kind (symbolic): a token that does not apply to the value's type yields Err(FormatError) and no panic; an applicable one yields Ok"
 fn c04_inapplicable() {
     let which: u8 = kani::any();
     kani::assume(which < 40);
